@@ -9,7 +9,7 @@ _m(
     "from_random/from_uniform -> Ptychography.preprocess): ROI 4..12 per axis (odd/even, non-square), 2..5 x 2..5 scan "
     "positions (<= 25 patterns from a harness-side numpy simulator, 1/100/1e4 counts), scan step 1..3 object pixels "
     "(integers when scan positions are learned), padding 0..4, 80/200/300 keV, object type complex / pure_phase / "
-    "potential, 1..2 slices, 1..2 probe modes, optionally a learned probe tilt; optimisers for object (always), probe "
+    "potential, 1..2 slices, 1..2 probe modes (2 only from the harness' own mode stack), optionally a learned probe tilt; optimisers for object (always), probe "
     "(4 of 5) and dataset = descan shifts + scan positions (1 of 3), each sgd (optionally momentum 0.5/0.9; lr also the "
     "Python int 1) / adam / adamw (optionally betas, amsgrad, weight_decay) with log-uniform learning rates; per model a "
     "scheduler none / exp (gamma or factor) / linear / cyclic (step sizes 1..3, three modes) / plateau (patience, "
@@ -37,9 +37,12 @@ _m(
         "unchanged",
         "tolerances for the continuation: losses 2e-5 relative per iteration, LR history 1e-6 relative, object/probe "
         "1e-6 + 2e-4*max|ref| (+ 2e-3 x sum of that model's learning rates since the first interruption when the model is "
-        "driven by Adam/AdamW).  Clean-tree measurement over 1000 generated cases (4000 comparisons, fixed tree): worst "
-        "loss deviation 7e-7 relative (0.036 of tolerance; 1.5e-6 seen once in an earlier 800-case sample), LR histories "
-        "identical, object 0.008 and probe 0.0065 of tolerance",
+        "driven by Adam/AdamW; 5e-2 x when a FRESH Adam takes its first step after the interruption, i.e. k == 0 or a later "
+        "call passes optimizer_params: that step is lr*sign(g), a component whose gradient is below the float32 noise floor "
+        "moves by +-lr with a noise-decided sign; for k >= 1 it lies in the bitwise-shared prefix).  Measured on the fixed "
+        "tree over 8400 + 6300 generated cases (about 60000 comparisons): losses typically <= 1e-6 relative (worst 5e-6 = 0.24 "
+        "of tolerance), LR histories identical, object <= 0.08 and probe <= 0.013 of tolerance outside the fresh-Adam class "
+        "(there: up to 1.7 % of the lr path)",
         "the pattern order inside the full batch is re-drawn from an unseeded generator after a reload (numpy generator "
         "state is not restored; clone() goes through save/reload because deepcopy fails on non-leaf tensors): summation "
         "order and hence float32 rounding differ between the uninterrupted run and every continuation; results of the "
@@ -58,7 +61,10 @@ _m(
         "measured movement <= 0.1 px (sgd) / 0.3 px (adam) in 6 iterations",
         "not drawn (measured to break float32 reproducibility between two summation orders, independent of "
         "checkpointing): ProbeParametric (aberration-coefficient gradients carry ~1e-3 relative rounding noise), the "
-        "poisson loss (log of ~0 predicted intensities), l1 losses; DIP models (cost)",
+        "poisson loss (log of ~0 predicted intensities), l1 losses, two probe modes from ProbePixelated.from_params (mode 2 "
+        "starts as a sub-pixel shifted copy of mode 1: Gram-Schmidt on nearly parallel modes amplifies rounding ~100x), a "
+        "learned dataset under Adam from a (nearly) uniform object when k == 0 (scan-position gradients analytically zero); "
+        "DIP models (cost)",
         "a reference run that raises is skipped (not a checkpoint matter); a reference run that is not finite or whose loss "
         "grows > 50x only gets the exact save/load/clone state checks (rounding differences are amplified without bound in "
         "a diverging optimisation); 0-iteration calls never rely on scheduler defaults derived from num_iters (they divide "
